@@ -530,9 +530,12 @@ class ConditionEvaluator(ast.NodeVisitor):
                 active.append(result.condition)
                 if is_and:
                     if result.left_varmap is None:
-                        # Condition returns False
+                        # Condition returns False (for what earlier operands let
+                        # through; what they held back is false as well)
                         return ConditionReturn(
-                            right_varmap=result.right_varmap,
+                            right_varmap=unite_varmaps(
+                                [*remaining_varmaps, result.right_varmap]
+                            ),
                             condition=ConditionList(active),
                         )
                     elif result.right_varmap is None:
@@ -556,9 +559,12 @@ class ConditionEvaluator(ast.NodeVisitor):
                             self.ctx.narrow_variables(result.right_varmap)
                         )
                     elif result.right_varmap is None:
-                        # Condition returns True
+                        # Condition returns True (for what earlier operands left
+                        # over; what they matched is true as well)
                         return ConditionReturn(
-                            left_varmap=result.left_varmap,
+                            left_varmap=unite_varmaps(
+                                [*remaining_varmaps, result.left_varmap]
+                            ),
                             condition=ConditionList(active),
                         )
                     else:
